@@ -16,17 +16,19 @@ def run(ck):
     if not ck.harness_ok:
         return ck.finish(level="other", trusted=COMMON_TRUSTED)
     sources = [("shape%d" % i, s) for i, s in enumerate(SHAPES)]
-    corp = PC.corpus_sources()
+    corp = [c for c in PC.corpus_sources()
+            if not any(x in c[0] for x in ("computational_model", "credit_scoring", "docs_computational")) and len(c[1]) < 1500
+            and "500" not in c[1] and "1000" not in c[1]]
     ck.rng.shuffle(corp)
-    sources += corp[:40 if quick else 400]
-    sources += PC.generated_sources(ck, 120 if quick else 3000, style="panic")
-    n = 6 if quick else 24
+    sources += corp[:25 if quick else 400]
+    sources += PC.generated_sources(ck, 60 if quick else 3000, style="panic")
+    n = 4 if quick else 24
     jobs = [f"(compile-hash h{i} (src {quote(s)}) (n {n}))" for i, (_, s) in enumerate(sources)]
     # several fresh processes (fresh per-process hash seeds); each compiles every program n times
     nproc = 3 if quick else 8
     results = []
     for p in range(nproc):
-        results.append(run_jobs(GVRUN, jobs, f"c06.p{p}", shards=4, timeout_per_job=3.0))
+        results.append(run_jobs(GVRUN, jobs, f"c06.p{p}", shards=NCPU, timeout_per_job=3.0))
     compared = 0
     nondet = 0
     for i, (name, src) in enumerate(sources):
